@@ -17,7 +17,7 @@ func init() {
 		ID: "C06",
 		Rule: "cases: JSON values (as Go values and as raw re-spelled bytes) hashed with codes 18/19 and every unsupported code in a list; validation of each value, every re-spelling and 6 single-point modifications against hashes of both algorithms; prefix-code queries against 6 algorithm lists; labelled malformed encodings (non-alphabet, padded, wrong length field, truncated, empty, one byte). Oracle: own base64url/varint/multihash codec + reference JCS. distinct = distinct (shape of value, mutation kind) and malformed classes.",
 		Assumptions: []string{"crypto/sha256, crypto/sha512", "harness JCS oracle (validated by C05's self-test vectors)"},
-		Require:     []string{"calc", "validate-equal", "validate-modified", "malformed", "unsupported-code", "calculate-id"},
+		Require:     []string{"calc", "validate-equal", "validate-modified", "validate-noncanonical-spelling", "malformed", "unsupported-code", "calculate-id"},
 		Run:         runC06,
 	})
 }
@@ -146,6 +146,33 @@ func c06Values(c *fw.Case, n int) {
 			}
 			if err := hashing.IsValidModelMultihash(in, hashes[code]); err == nil {
 				c.Failf("modified-accepted", map[string]interface{}{"original": v, "modified": mv, "mutation": desc, "hash": hashes[code]}, "IsValidModelMultihash accepted a modified value (%s)", desc)
+			}
+		}
+		// non-canonical spellings of the right hash are not "the hash computed from the value": validation compares the
+		// encoded strings, so a spelling that merely decodes to the same bytes (spare trailing bits, line breaks the
+		// lenient base64 decoder skips) must be refused
+		for _, code := range []uint64{18, 19} {
+			hh := hashes[code]
+			variants := map[string]string{"embedded-newline": hh[:len(hh)/2] + "\n" + hh[len(hh)/2:], "trailing-crlf": hh + "\r\n", "leading-newline": "\n" + hh}
+			if len(hh)%4 != 0 {
+				const alpha = "ABCDEFGHIJKLMNOPQRSTUVWXYZabcdefghijklmnopqrstuvwxyz0123456789-_"
+				spare := uint(2)
+				if len(hh)%4 == 2 {
+					spare = 4
+				}
+				idx := strings.IndexByte(alpha, hh[len(hh)-1])
+				alt := (idx &^ (1<<spare - 1)) | ((idx + 1) & (1<<spare - 1))
+				if alt != idx {
+					variants["non-zero-trailing-bits"] = hh[:len(hh)-1] + string(alpha[alt])
+				}
+			}
+			for name, vs := range variants {
+				c.Count("validate-noncanonical-spelling", 1)
+				c.Evals(1)
+				c.Sig("noncanon", name, code)
+				if err := hashing.IsValidModelMultihash(v, vs); err == nil {
+					c.Failf("noncanonical-hash-accepted:"+name, map[string]interface{}{"value": v, "canonical_hash": hh, "spelling": vs, "class": name}, "IsValidModelMultihash accepted a non-canonical spelling (%s) of the hash", name)
+				}
 			}
 		}
 		// a hash whose prefix names the other algorithm but carries this digest must be refused
